@@ -6,6 +6,7 @@ package wsocks
 // corresponding error reply.
 
 import (
+	"bytes"
 	"fmt"
 	"strings"
 	"time"
@@ -98,6 +99,29 @@ func (e *env) c23ServerBytes(c *cconn) {
 	p := parseServer(c.srvOut, offeredBy(c))
 	if p.bad != "" {
 		simrt.Failf("malformed-reply", badKind(p.bad), "connection %d: %s; server stream so far %x; script: %s", c.id, p.bad, head(c.srvOut, 64), c.desc)
+	}
+	if p.reply != nil && p.reply.rep == 0 {
+		// After a successful CONNECT the server only relays: the destination echoes
+		// whatever the client sent after its request, so everything that follows
+		// the reply must be a prefix of those bytes (a reply with surplus bytes
+		// would show up here as data the destination never sent).
+		if req, ok := e.requestOf(c); ok && req.state == reqComplete && e.cmdClass(req.cmd) == "connect" {
+			after := c.srvOut[p.reply.end:]
+			sentAfter := c.sent[min(req.end, len(c.sent)):]
+			isPrefix := func(a, b []byte) bool { return len(a) <= len(b) && bytes.Equal(a, b[:len(a)]) }
+			if !isPrefix(after, sentAfter) && len(sentAfter) > 0 && isPrefix(after, sentAfter[1:]) {
+				// Data sent before the reply: the handler's disconnect monitor reads
+				// the client connection one byte at a time while it dials and throws
+				// a byte away when the dial completes during that read. The statement
+				// is about replies and dial targets, not about early data: counted.
+				simrt.Probe("early_data_byte_consumed_by_dial_monitor")
+			} else if !isPrefix(after, sentAfter) {
+				simrt.Failf("malformed-reply", "bytes between the success reply and the relayed data", "connection %d: after the %d-byte reply the client received %x, the destination echoed only %x; script: %s", c.id, p.reply.end, head(after, 48), head(sentAfter, 48), c.desc)
+			}
+			if len(after) > 0 {
+				simrt.Probe("relayed_data_after_reply_checked")
+			}
+		}
 	}
 	if p.reply == nil || c.replySeen {
 		return
